@@ -56,7 +56,9 @@ def r1(F, R):
             sl = A.slice_back(m, [t["args"][0]])
             flds |= {n for o, n in sl.fields if o == COL}
         R.check(len(ins) == 1 and flds == {kw}, f"builder-inserts-into/{kw}", m, f"Collection::{kw} inserts into `{kw}`", f"Collection::{kw} inserts into {sorted(flds)}")
-    R.floor(4)
+    # the hand-written Clone keeps the keyword maps apart (runners / Cucumber builders are cloned together with their collection)
+    roles.check_field_faithful_clone(F, R, COL, "collection")
+    R.floor(7)
 
 
 def r2(F, R):
@@ -105,8 +107,11 @@ def r3(F, R):
         s, st = errs[0]
         ch = A.receiver_chain(b, st["rv"]["ops"][0])
         names = [callee_path(c).rsplit("::", 1)[-1] for _, c in ch]
-        R.check("collect" in names[:1] and any(n in ("sorted", "sorted_unstable", "sorted_by", "sorted_by_key") for n in names[:3]), "candidates-sorted", s,
-                f"possible_matches = ….sorted().collect()  ({names[:4]})", f"the ambiguity candidates are not sorted before being reported ({names[:4]}): the message depends on HashMap order")
+        # the whole reported element (regex AND location) must be the sort key: `sorted()` directly before `collect()`; a custom comparator
+        # (sorted_by / sorted_by_key) is not accepted because entries that compare equal keep HashMap order
+        R.check(names[:2] in (["collect", "sorted"], ["collect", "sorted_unstable"]), "candidates-sorted", s,
+                f"possible_matches = ….sorted().collect()  ({names[:4]})", f"the ambiguity candidates are not totally ordered (by regex and location) right before being collected ({names[:4]}): "
+                "the reported list depends on HashMap iteration order")
     # HashableRegex: Ord, PartialEq, Hash via as_str
     for tr, meth in (("std::cmp::Ord", "cmp"), ("std::cmp::PartialEq", "eq"), ("std::hash::Hash", "hash")):
         ms = [x for x in F.crate_bodies() if (x.impl or {}).get("self_adt") == "step::HashableRegex" and (x.impl or {}).get("trait") == tr and x.name.endswith("::" + meth)]
@@ -160,7 +165,23 @@ def r4(F, R):
             for _, c in kb.calls(lambda c: callee_is(c, r"Option::<.*>::map_or$")):
                 dflt.append(const_str(c["args"][1]))
         R.check(dflt == [""], "matches/missing-group-empty", kb or rsd[0], 'captures.get(i).map_or("", ..)', f"non-participating groups default to {dflt}")
-    R.floor(5)
+    # group texts are cut out of the very string the regex was matched against
+    reads = [(nb, s, t) for nb in F.nested(b) for s, t in nb.calls(lambda t: callee_is(t, r"Regex::captures_read(_at)?$"))]
+    hay = set()
+    for nb, s, t in reads:
+        ds = A.deep_slice(F, nb, [t["args"][2]])
+        hay |= {(o, n) for o, n in ds.fields if o == "gherkin::Step"}
+    idx = [(nb, s, t) for nb in F.nested(b) for s, t in nb.calls(lambda t: callee_is(t, r"ops::Index.*::index$") and "str" in (op_fn(t["func"]) or {}).get("full", ""))]
+    base = set()
+    for nb, s, t in idx:
+        ds = A.deep_slice(F, nb, [t["args"][0]])
+        base |= {(o, n) for o, n in ds.fields if o == "gherkin::Step"}
+        other = ds.has_call(r"Match.*::as_str$")
+        R.check(not other, "matches/group-offsets-in-haystack", s, "group text = &step.value[s..e]",
+                "capture offsets (relative to the whole step text) are applied to a different string (the match substring): wrong group texts or a panic")
+    R.check(len(reads) == 1 and len(idx) == 1 and hay == base == {("gherkin::Step", "value")}, "matches/indexed-string-is-matched-string", b,
+            "captures_read(.., &step.value) and &step.value[s..e]", f"regex matched against {sorted(hay)}, groups sliced from {sorted(base)}")
+    R.floor(7)
 
 
 def r5(F, R):
